@@ -252,7 +252,8 @@ func (w *writer) Run(ctx context.Context, log messageLog) error {
 		case <-ctx.Done():
 			return nil
 		case routedMessage := <-w.queue:
-			if routedMessage.offset != 0 {
+			if routedMessage.publish == nil {
+				// scheduled from the message log (offset 0 is a valid offset: the first message ever stored)
 				started := time.Now()
 				p, err := log.Get(routedMessage.offset)
 				if err != nil {
